@@ -3,8 +3,10 @@ CONSTANTS
   MaxNodes = 12
   BaseSet <- AllBases
   RunCfgSeq <- RunsThorough
-  Prods <- AllProds
+  Prods <- TreeProds
   KISet <- KIClassic
+  EnvWhereSet <- EnvWheres
+  Deviations = {}
   EmitMin = 0
   EmitFrom = 9
   EmitMod = 1
